@@ -244,6 +244,10 @@ def random_op(prog, rng, alphabet, allow_new_reg=False):
     if not qregs:
         return None
     kind = alphabet[int(rng.integers(len(alphabet)))]
+    if allow_new_reg and rng.random() < 0.5:
+        # the next register of one type may be named by an operation that is appended (continuous numbering)
+        t = "ep"[int(rng.integers(2))]
+        qregs = qregs + [(t, prog.n_e if t == "e" else prog.n_p)]
     pick = lambda: qregs[int(rng.integers(len(qregs)))]
     if kind in ONEQ:
         return prog.new_op(kind, [pick()])
@@ -305,17 +309,19 @@ def place(prog, circ, op, rng, p_insert=0.35):
     return True
 
 
-def random_program(rng, n_e, n_p, n_c, length, alphabet=None, p_insert=0.35, adversarial=True):
+def random_program(rng, n_e, n_p, n_c, length, alphabet=None, p_insert=0.35, adversarial=True, grow_registers=False):
     """build (Program, CircuitDAG) through the public API"""
     from graphiq.circuit.circuit_dag import CircuitDAG
     alphabet = alphabet or FULL_ALPHABET
     prog = Program(n_e, n_p, n_c)
     circ = CircuitDAG(n_emitter=n_e, n_photon=n_p, n_classical=n_c)
     for step in range(length):
-        op = random_op(prog, rng, alphabet)
+        grow = grow_registers and prog.n_q < 6 and rng.random() < 0.06
+        op = random_op(prog, rng, alphabet, allow_new_reg=grow)
         if op is None:
             continue
-        place(prog, circ, op, rng, p_insert)
+        new_reg = any((w not in prog.wires) for w in op.q)
+        place(prog, circ, op, rng, 0.0 if new_reg else p_insert)
         # adversarial shape: something right after a measure-and-reset on the same emitter / measured qubit
         if adversarial and op.kind in ("MR", "MZ", "cCNOT", "cCZ") and rng.random() < 0.6:
             w = op.q[0]
